@@ -110,4 +110,8 @@ def applyWrites (buf : Bytes) : List (Nat × Bytes) → Res Bytes
 def u8TryFrom (n : Nat) : Res UInt8 :=
   if n ≤ 255 then .ok (UInt8.ofNat n) else .err .bufferSize
 
+/-- `u16::try_from(n).map_err(|_| Error::BufferSize)` -/
+def u16TryFrom (n : Nat) : Res UInt16 :=
+  if n ≤ 65535 then .ok (UInt16.ofNat n) else .err .bufferSize
+
 end Modbus
